@@ -54,8 +54,13 @@ class SymArr(np.ndarray):
         if dtype is bool:
             return _conc_mask(self)
         try:
-            if np.dtype(dtype) == object:
+            dt = np.dtype(dtype)
+            if dt == object:
                 return self.copy()
+            if dt.kind in "iu":
+                return _map(sx.sint, self).view(IntObjArr) if self.shape else sx.sint(self[()])
+            if dt.kind == "f":
+                return _map(sx.sfloat, self)
         except TypeError:
             pass
         return np.asarray(self).astype(dtype, *a, **k)
@@ -537,6 +542,32 @@ class _ExactFFT:
     ifftshift = staticmethod(np.fft.ifftshift)
 
 
+def _unravel_index(k, shape, **kw):
+    if not is_sym(k):
+        return np.unravel_index(k, shape, **kw)
+    a = _oarr(k)
+    conc = np.zeros(a.shape, dtype=np.intp)
+    for i in np.ndindex(a.shape):
+        conc[i] = a[i].__index__() if isinstance(a[i], SNum) else int(a[i])
+    return np.unravel_index(conc, shape, **kw)
+
+
+class _AddAt:
+    """np.add with an `at` that accepts symbolic integer indices (case-split) and symbolic values"""
+
+    def __call__(self, *a, **k):
+        return np.add(*a, **k)
+
+    @staticmethod
+    def at(array, indices, values):
+        idx = [np.asarray(_oarr(i), dtype=object) for i in indices]
+        idx = np.broadcast_arrays(*idx, _oarr(values))
+        vals = idx[-1]
+        for pos in np.ndindex(vals.shape):
+            key = tuple(i[pos].__index__() if isinstance(i[pos], SNum) else int(i[pos]) for i in idx[:-1])
+            array[key] = array[key] + vals[pos]
+
+
 class ShimNP:
     """delegating numpy shim"""
 
@@ -578,7 +609,7 @@ def make_shim(pi=False, **over):
         isclose=_isclose, allclose=_allclose, all=_all, any=_any, asarray=_asarray, array=_array,
         linspace=_linspace, arange=_arange, cumsum=_cumsum, digitize=_digitize, arctan2=_arctan2,
         angle=_angle, hypot=_hypot, round=_round, around=_round, real=_real_part, imag=_imag_part,
-        conj=_conj, conjugate=_conj, isscalar=_isscalar, iscomplexobj=_iscomplexobj, prod=_prod, fft=_ExactFFT, linalg=_Linalg(),
+        conj=_conj, conjugate=_conj, isscalar=_isscalar, iscomplexobj=_iscomplexobj, add=_AddAt(), unravel_index=_unravel_index, prod=_prod, fft=_ExactFFT, linalg=_Linalg(),
         float32=object, float64=object, complex64=object, complex128=object,
         ones=_int_alloc("ones"), zeros=_int_alloc("zeros"), empty=_int_alloc("empty"),
     )
